@@ -83,7 +83,7 @@ Definition num_cost (k n : N) : N :=
 Fixpoint pk_cost (c : ctx) (ke : keyenv) (m : ms) : N :=
   match m with
   | MTrue | MFalse => 1
-  | MPkK k => if is_tap c then 33 else if is_uncompressed ke k then 65 else 34
+  | MPkK k => if is_tap c then 33 else if is_uncompressed ke k then 66 else 34
   | MPkH _ | MRawPkH _ => 24
   | MAfter t | MOlder t => script_num_size t + 1
   | MSha256 _ | MHash256 _ => 33 + 6
